@@ -101,6 +101,29 @@ def main():
     shutil.rmtree(WT + "/.nbc", ignore_errors=True)
     if not ok:
         return 2
+    if os.environ.get("EVAL_IN_WT") == "1":
+        # run our checks against the scratch worktree itself (VERIF_REPO) so that /repo is left alone (a sweep may be using it)
+        saved = backup(WT, rels, WT + "/.bak")
+        try:
+            if not apply(WT):
+                return 2
+            sh("%s MUTANTS/rebuild.py %s" % (PY, WT), cwd=WT)
+            for c in [P] + extra:
+                rc, out = sh("./check %s" % c, cwd="/verif", env={"VERIF_REPO": WT, "PYTHONPATH": WT}, log="/tmp/ev_%s%s.check_%s.log" % (P, V, c), timeout=7200)
+                lines = out.splitlines()
+                nv = sum(1 for ln in lines if ln.startswith("VIOLATION"))
+                print("check %s exit=%d violations=%d (in worktree)" % (c, rc, nv))
+                shown = 0
+                for i, ln in enumerate(lines):
+                    if ln.startswith("VIOLATION") and shown < 3:
+                        print("   " + (lines[i + 1] if i + 1 < len(lines) else "")[:400])
+                        shown += 1
+                print("   " + (lines[-1] if lines else "")[:200])
+        finally:
+            sh("git checkout -- .", cwd=WT)
+            restore(saved)
+            sh("%s MUTANTS/rebuild.py %s" % (PY, WT), cwd=WT)
+        return 0
     # ---- /repo
     rc, out = sh("git status --short | grep -v '^??'", cwd="/repo")
     if out.strip():
